@@ -782,6 +782,8 @@ def linesplit(string: Union[str, FmtStr], columns: int) -> List[FmtStr]:
         for i in range((len(word) - 1) // columns + 1)
     ]
 
+    if not words:
+        return []
     lines = word_to_lines(words[0])
     for word, space in zip(words[1:], spaces):
         if len(lines[-1]) + len(word) < columns:
